@@ -130,6 +130,7 @@ def run(prop, tier, seed, only=None, with_mc=True):
                 wd = os.path.join(WORK, f"mc-{prop}-{os.getpid()}", mod + "-" + c["cfg"])
                 mc_futs.append((mod, c, mc_pool.submit(tlc.run_mc, mod, c["cfg"], wd, max(2, NCPU // 4), c.get("timeout", 1800))))
     rec_fail = []
+    skipped = []
     traces = []
     nworkers = max(1, NCPU)
     with cf.ThreadPoolExecutor(nworkers) as ex:
@@ -137,6 +138,9 @@ def run(prop, tier, seed, only=None, with_mc=True):
             ad, cfg = meta_by_path[job[5]]
             if not meta.get("ok"):
                 rec_fail.append((ad, cfg, meta))
+            elif meta.get("skipped"):
+                skipped.append((ad.name, cfg["id"], meta["skipped"]))
+                log(f"[{prop}] INJ configuration {ad.name}/{cfg['id']} skipped: {meta['skipped']}")
             else:
                 traces.append((ad, cfg, job[5], meta))
     log(f"[{prop}] recorded {len(traces)} traces ({sum(m['events'] for *_, m in traces)} events) in {time.time() - t0:.1f}s;"
@@ -164,4 +168,4 @@ def run(prop, tier, seed, only=None, with_mc=True):
 
     shutil.rmtree(os.path.join(WORK, f"tv-{prop}-{os.getpid()}"), ignore_errors=True)
     shutil.rmtree(os.path.join(WORK, f"mc-{prop}-{os.getpid()}"), ignore_errors=True)
-    return {"traces": traces, "results": results, "rec_fail": rec_fail, "mcs": mcs, "wall": time.time() - t0}
+    return {"traces": traces, "results": results, "rec_fail": rec_fail, "skipped": skipped, "mcs": mcs, "wall": time.time() - t0}
